@@ -10,3 +10,5 @@ import MimicProps.C04
 #print axioms MimicProps.C04.feed_segmentation_independent
 #print axioms MimicProps.C04.segmentations_agree
 #print axioms MimicProps.C04.reassemble_any_segmentation
+#print axioms MimicProps.C04.header_is_code
+#print axioms MimicProps.C04.header_read_is_code
